@@ -424,6 +424,55 @@ def gen():
     out.append("Definition rank_half (size : nat) : nat := %s." % rank_half)
     out.append("Definition rank_pivot_pos (half : nat) : nat := %s." % rank_pos)
 
+    # ================================================================== _find_pivot / BuildStrategy: what each strategy computes
+    fs = T.find_def(tree, "KDTree.BuildStrategy.from_string", KD)
+    parts.append(("KDTree.BuildStrategy.from_string", T.sha(src, fs)))
+    name_of = {}           # accepted (lower-case) string -> enum member
+    for st in T.body_nodoc(fs):
+        expect(isinstance(st, ast.If) and not st.orelse and len(st.body) == 1 and isinstance(st.body[0], ast.Return)
+               and isinstance(st.test, ast.Compare) and u(st.test.left) == "txt.lower()" and isinstance(st.test.ops[0], ast.Eq)
+               and isinstance(st.test.comparators[0], ast.Constant) and u(st.body[0].value).startswith("cls."), KD, st,
+               "from_string is not a list of `if txt.lower() == <name>: return cls.<MEMBER>`")
+        name_of[st.test.comparators[0].value] = u(st.body[0].value)[4:]
+    expect(name_of == {"balanced": "BALANCED", "fast": "FAST", "random": "RANDOM"}, KD, fs, "strategy names / enum members changed: %s" % name_of)
+    expect(any(u(s) == "self.build_strategy = KDTree.BuildStrategy.from_string(strategy)" for s in body), KD, fn,
+           "self.build_strategy = KDTree.BuildStrategy.from_string(strategy) not found")
+    fp = T.find_def(tree, "KDTree._find_pivot", KD)
+    parts.append(("KDTree._find_pivot", T.sha(src, fp)))
+    fp = canon_fn(fp, ["samples"])
+    expect([a.arg for a in fp.args.args] == ["self", "pts_ax"], KD, fp, "_find_pivot signature changed")
+    rules = {}
+    node = T.body_nodoc(fp)
+    expect(len(node) == 1 and isinstance(node[0], ast.If), KD, fp, "_find_pivot is not an if / elif chain over self.build_strategy")
+    cur = node[0]
+    while True:
+        t_ = u(cur.test)
+        expect(t_.startswith("self.build_strategy == KDTree.BuildStrategy."), KD, cur, "_find_pivot branch test not recognised")
+        member = t_.rsplit(".", 1)[1]
+        bb_ = [u(x) for x in cur.body]
+        if bb_ == ["return np.median(pts_ax)"]:
+            rules[member] = "PMedian"
+        elif bb_ == ["return np.random.choice(pts_ax, 1)[0]"]:
+            rules[member] = "PElement"
+        elif len(bb_) == 2 and bb_[1] == "return np.median(samples)" and isinstance(cur.body[0], ast.Assign) \
+                and is_call(cur.body[0].value, "np.random.choice", 2) and u(cur.body[0].value.args[0]) == "pts_ax" \
+                and {k.arg: u(k.value) for k in cur.body[0].value.keywords} == {"replace": "False"}:
+            sz = cur.body[0].value.args[1]
+            expect(is_call(sz, "min", 2) and isinstance(sz.args[0], ast.Constant) and isinstance(sz.args[0].value, int)
+                   and u(sz.args[1]) == "pts_ax.size", KD, sz, "sample size is not min(<int>, pts_ax.size)")
+            rules[member] = "(PMedianOfSample %d%%nat)" % sz.args[0].value
+        else:
+            T.fail(KD, cur, "pivot computation of strategy %s not recognised" % member)
+        if len(cur.orelse) == 1 and isinstance(cur.orelse[0], ast.If):
+            cur = cur.orelse[0]
+            continue
+        expect(all(isinstance(x, ast.Raise) for x in cur.orelse), KD, cur, "_find_pivot: the final else does not raise")
+        break
+    expect(set(rules) == {"BALANCED", "FAST", "RANDOM"}, KD, fp, "_find_pivot does not treat exactly the three strategies")
+    out.append("(* kdtree.py KDTree._find_pivot / BuildStrategy.from_string *)")
+    out.append("Definition pivot_rule (s : strategy) : prule := match s with Balanced => %s | Fast => %s | Random => %s end."
+               % (rules["BALANCED"], rules["FAST"], rules["RANDOM"]))
+
     # ================================================================== query
     fn = T.find_def(tree, "KDTree.query", KD)
     parts.append(("KDTree.query", T.sha(src, fn)))
